@@ -58,6 +58,7 @@ class FnTarget:
         self.optional = set()  # ('loop', key) / ('iter', key) / ('hint', text): spliced if the anchor exists, skipped otherwise
         self.tail = None       # proof text put before the closing brace of the body (unit-returning fns only)
         self.closures = {}     # closure ordinal -> contract text for the k-th closure expression of the body
+        self.params_to_let = False  # R8: destructuring closure parameters become a `let` at the head of the closure body
         self.omit = False
         self.canary = True
 
@@ -267,6 +268,8 @@ class Assembler:
                             blk.keep_attrs = True
                         elif d == 'bare':
                             blk.bare = True
+                        elif d == 'closure-params-to-let':
+                            blk.cur.params_to_let = True
                         elif d == 'no-canary':
                             blk.cur.canary = False
                         else:
@@ -447,14 +450,65 @@ class Assembler:
                             elif st[pe].text in ')]>':
                                 depth -= 1
                             pe += 1
+                    ctext = None
                     if tgt and closure_no in tgt.closures:
                         seen_closures.add(closure_no)
                         ctext = tgt.closures[closure_no]
-                        self.rewrites.append('C %s:%d closure #%d of fn %s: contract spliced between parameters and body%s'
-                                             % (blk.relpath, src.line_of(t.start), closure_no, tgt.name,
-                                                '' if st[pe + 1].text == '{' else ' (body expression wrapped in braces)'))
+                    # R8 (opt-in, `//@ closure-params-to-let`): a closure parameter that is a destructuring pattern,
+                    # `|S { f, .. }| body`, is moved into a `let` at the head of the body:
+                    # `|__rbv_pN| { let S { f, .. } = __rbv_pN; body }` -- the definition of a pattern parameter
+                    # (Rust reference, closure expressions: parameters are irrefutable patterns bound like `let`).
+                    # Verus' front end only accepts plain variables as closure parameters.
+                    lets = ''
+                    if tgt and tgt.params_to_let and pe > k + 1:
+                        groups, cur, depth = [], [], 0
+                        for q in range(k + 1, pe):
+                            tq = st[q]
+                            if tq.kind == 'punct' and tq.text in '([{<':
+                                depth += 1
+                            elif tq.kind == 'punct' and tq.text in ')]}>':
+                                depth -= 1
+                            if tq.kind == 'punct' and tq.text == ',' and depth == 0:
+                                groups.append(cur)
+                                cur = []
+                            else:
+                                cur.append(q)
+                        if cur:
+                            groups.append(cur)
+                        for gi, g in enumerate(groups):
+                            # pattern = tokens before a depth-0 ':' (type ascription), if any
+                            depth, pat = 0, g
+                            for n_, q in enumerate(g):
+                                tq = st[q]
+                                if tq.kind == 'punct' and tq.text in '([{<':
+                                    depth += 1
+                                elif tq.kind == 'punct' and tq.text in ')]}>':
+                                    depth -= 1
+                                elif tq.kind == 'punct' and tq.text == ':' and depth == 0 and not (
+                                        st[q + 1].text == ':' or st[q - 1].text == ':'):
+                                    pat = g[:n_]
+                                    break
+                            simple = (len(pat) == 1 and st[pat[0]].kind == 'ident') or (
+                                len(pat) == 2 and st[pat[0]].text == 'mut' and st[pat[1]].kind == 'ident')
+                            if simple or not pat:
+                                continue
+                            tmp = '__rbv_p%d_%d' % (closure_no, gi + 1)
+                            ptext = text[st[pat[0]].start:st[pat[-1]].end]
+                            edits.append((st[pat[0]].start, st[pat[-1]].end, tmp))
+                            lets += ' let %s = %s;' % (ptext, tmp)
+                            self.rewrites.append('R8 %s:%d closure #%d of fn %s: pattern parameter `%s` -> `%s` + `let %s = %s;` at the head of the body'
+                                                 % (blk.relpath, src.line_of(t.start), closure_no, tgt.name, ' '.join(ptext.split()), tmp, ' '.join(ptext.split()), tmp))
+                    if ctext is not None or lets:
+                        if ctext is not None:
+                            self.rewrites.append('C %s:%d closure #%d of fn %s: contract spliced between parameters and body%s'
+                                                 % (blk.relpath, src.line_of(t.start), closure_no, tgt.name,
+                                                    '' if st[pe + 1].text == '{' else ' (body expression wrapped in braces)'))
+                        pre = (' ' + ctext + ' ') if ctext is not None else ''
                         if st[pe + 1].text == '{':
-                            edits.append((st[pe].end, st[pe].end, ' ' + ctext + ' '))
+                            if pre:
+                                edits.append((st[pe].end, st[pe].end, pre))
+                            if lets:
+                                edits.append((st[pe + 1].end, st[pe + 1].end, lets))
                         else:
                             # body = expression up to the ',' or closing bracket of the enclosing call
                             q = pe + 1
@@ -471,7 +525,7 @@ class Assembler:
                                     elif tq.text in ',;' and depth == 0:
                                         break
                                 q += 1
-                            edits.append((st[pe].end, st[pe].end, ' ' + ctext + ' {'))
+                            edits.append((st[pe].end, st[pe].end, (pre if pre else ' ') + '{' + lets))
                             edits.append((st[q - 1].end, st[q - 1].end, ' }'))
                     k = pe + 1
                     continue
